@@ -83,7 +83,7 @@ def run(module, cfg, consts=None, env=None, workers=1, simulate=None, depth=None
     cfgp = work / (module_for_cfg + ".cfg")
     cfgp.write_text(cfg)
     gc = ["-XX:+UseSerialGC", "-XX:TieredStopAtLevel=1"] if workers == 1 else ["-XX:+UseParallelGC"]
-    cmd = ["java"] + gc + ["-Xmx" + heap] + (["-Xss" + xss] if xss else []) + ["-DTLA-Library=" + str(SPEC)]
+    cmd = ["java"] + gc + ["-Xmx" + heap] + (["-Xss" + xss] if xss else []) + ["-DTLA-Library=" + str(SPEC), "-Djava.io.tmpdir=" + str(work)]
     if dfs:
         cmd.append("-Dtlc2.tool.queue.IStateQueue=StateDeque")
     cmd += ["-cp", JAR, "tlc2.TLC", "-noGenerateSpecTE", "-metadir", str(work / "meta"),
